@@ -20,7 +20,7 @@ func init() { corpusC05Hook = runC05Corpus }
 func runC05Corpus(c *fw.Ctx) {
 	maxBytes := 6000
 	if !c.Quick() {
-		maxBytes = 40000
+		maxBytes = 17000
 	}
 	docs, skipped := corpusDocs(maxBytes)
 	if c.Shard == 0 {
